@@ -269,8 +269,14 @@ func Stamp() int {
 	return v
 }
 func ChanCap(site string, n int) {}
-func AdvanceClock()              {}
-func Threads() int               { return 0 }
+
+// Foreground makes background threads whose function name contains sub part of schedule exploration.
+func Foreground(sub string) {}
+
+// FireTickers makes every time.Ticker deliver one tick (natively tickers run on real time).
+func FireTickers()  { time.Sleep(time.Duration(Param("native_tick_ms", 1300)) * time.Millisecond) }
+func AdvanceClock() {}
+func Threads() int  { return 0 }
 func PanicMessage(v interface{}) string {
 	return fmt.Sprint(v)
 }
